@@ -30,23 +30,21 @@ IsEvent(e) == l <= Len(Rec) /\ Rec[l].a = e /\ l' = l + 1
 
 \* ---- the logged projection agrees with the (primed) specification state
 RowOf(n) == [n |-> n, acct |-> ninfo'[n].acct, mined |-> txs'[ninfo'[n].t].mined, minobs |-> txs'[ninfo'[n].t].minobs,
-             sp |-> { << k[2], txs'[k[2]].mined, txs'[k[2]].minobs >> : k \in { k \in links' : k[1] = n } }]
-LoggedRow(r) == [n |-> r.n, acct |-> r.acct, mined |-> r.mined, minobs |-> r.minobs, sp |-> { << s[1], s[2], s[3] >> : s \in SeqToSet(r.sp) }]
+             exp |-> txs'[ninfo'[n].t].exp,
+             sp |-> { << k[2], txs'[k[2]].mined, txs'[k[2]].minobs, txs'[k[2]].exp >> : k \in { k \in links' : k[1] = n } }]
+LoggedRow(r) == [n |-> r.n, acct |-> r.acct, mined |-> r.mined, minobs |-> r.minobs, exp |-> r.exp,
+                 sp |-> { << s[1], s[2], s[3], s[4] >> : s \in SeqToSet(r.sp) }]
 
+\* Wallet!Unexpired / Counted in the state after the step
+UnexpiredP(t) == \/ (txs'[t].mined # -1 /\ txs'[t].mined < tip' + 1)
+                 \/ txs'[t].exp = Never
+                 \/ (txs'[t].exp >= 0 /\ txs'[t].exp >= tip' + 1)
+                 \/ (txs'[t].exp = -1 /\ txs'[t].minobs + ExpiryDelta >= tip' + 1)
+CountedP(n) == UnexpiredP(ninfo'[n].t) /\ \A k \in links' : k[1] = n => ~UnexpiredP(k[2])
 LedgerP(a, p)  == FoldSet(LAMBDA n, acc : acc + ninfo'[n].v, 0,
-                     { n \in known' : /\ ninfo'[n].pool = p /\ ninfo'[n].acct = a /\ ninfo'[n].v > Dust
-                                      /\ (\/ (txs'[ninfo'[n].t].mined # -1 /\ txs'[ninfo'[n].t].mined < tip' + 1)
-                                          \/ txs'[ninfo'[n].t].minobs + ExpiryDelta >= tip' + 1)
-                                      /\ \A k \in links' : k[1] = n =>
-                                            ~(\/ (txs'[k[2]].mined # -1 /\ txs'[k[2]].mined < tip' + 1)
-                                              \/ txs'[k[2]].minobs + ExpiryDelta >= tip' + 1) })
+                     { n \in known' : ninfo'[n].pool = p /\ ninfo'[n].acct = a /\ ninfo'[n].v > Dust /\ CountedP(n) })
 LedgerDustP(a, p) == FoldSet(LAMBDA n, acc : acc + ninfo'[n].v, 0,
-                     { n \in known' : /\ ninfo'[n].pool = p /\ ninfo'[n].acct = a /\ ninfo'[n].v <= Dust
-                                      /\ (\/ (txs'[ninfo'[n].t].mined # -1 /\ txs'[ninfo'[n].t].mined < tip' + 1)
-                                          \/ txs'[ninfo'[n].t].minobs + ExpiryDelta >= tip' + 1)
-                                      /\ \A k \in links' : k[1] = n =>
-                                            ~(\/ (txs'[k[2]].mined # -1 /\ txs'[k[2]].mined < tip' + 1)
-                                              \/ txs'[k[2]].minobs + ExpiryDelta >= tip' + 1) })
+                     { n \in known' : ninfo'[n].pool = p /\ ninfo'[n].acct = a /\ ninfo'[n].v <= Dust /\ CountedP(n) })
 
 \* the scan queue (C15, wallet level): sorted, gap-free, non-overlapping, adjacent priorities merged,
 \* ends at the tip, and exactly the scanned heights carry priority Scanned (= 1)
@@ -141,8 +139,11 @@ ClientStep(r) == r.client =>
                    /\ Len(sugg) >= 1 /\ r.from = sugg[1][1] /\ r.from + r.n <= sugg[1][2] /\ r.n >= 1
                    /\ r.res = "ok"
                    /\ \A h \in r.from..(r.from + r.n - 1) : h \notin scanned /\ h <= top
+LoggedLinks(post) == UNION { { << post.notes[i].n, post.notes[i].sp[j][1] >> : j \in DOMAIN post.notes[i].sp } : i \in DOMAIN post.notes }
 TScan == /\ IsEvent("scan") /\ UNCHANGED locks /\ UNCHANGED sugg /\ ClientStep(Rec[l])
-         /\ \/ /\ Rec[l].res = "ok" /\ Scan(Rec[l].from, Rec[l].n)
+         /\ \/ /\ Rec[l].res = "ok"
+               \* the optional links of settled notes are read off the logged projection (bound to a LET name: TLC caches those)
+               /\ LET O == ScanOpt(Rec[l].from, Rec[l].n) \cap LoggedLinks(Rec[l].post) IN Scan(Rec[l].from, Rec[l].n, O)
                /\ LET R == { h \in Rec[l].from..(Rec[l].from + Rec[l].n - 1) : h <= top }
                       own(i) == { h \in R : cmAt[h][i] > 0 }
                       gridIn == { h \in R : Retains(h) }
@@ -183,23 +184,32 @@ TTrunc == /\ IsEvent("trunc") /\ UNCHANGED locks /\ UNCHANGED sugg
              \/ Rec[l].res = "err" /\ UNCHANGED wvars /\ UNCHANGED cvars        \* refusals are legitimate (relational)
           /\ PostOK(Rec[l].post)
 
-\* a second, fresh wallet scanned the whole current chain once in height order: whenever the wallet
-\* under test has scanned everything up to the tip, its mined notes, their mined spenders and the
-\* balance they imply are identical (orphans of a rewind are the stated exception)
-MinedRow(n) == [n |-> n, acct |-> ninfo[n].acct, mined |-> txs[ninfo[n].t].mined,
-                sp |-> { k[2] : k \in { k \in links : k[1] = n /\ txs[k[2]].mined # -1 } }]
+\* a second, fresh wallet scanned the whole current chain once in height order.  What it must hold follows from the
+\* chain alone: every note the chain pays to an account, mined where the chain has it, spent by exactly the chain's
+\* spenders.  Whenever the wallet under test has scanned everything up to the tip, its mined notes are the same, and
+\* so are their mined spenders -- except for a note that a never-expiring pending transaction of the wallet spends
+\* (the scanner no longer looks for its nullifier; the note counts as spent either way)
+ChainOuts == UNION { { [n |-> o.n, h |-> e.h] : o \in { o \in SeqToSet(e.tx.outs) : o.n # 0 } } : e \in OnChain }
+ChainSpenders(n) == { e.tx.t : e \in { e \in OnChain : n \in Spends(e.tx) } }
+ChainRow(x) == [n |-> x.n, acct |-> ninfo[x.n].acct, mined |-> x.h, sp |-> ChainSpenders(x.n)]
 FreshRow(r) == [n |-> r.n, acct |-> r.acct, mined |-> r.mined, sp |-> { s[1] : s \in SeqToSet(r.sp) }]
-MinedBal(a, p, dust) == FoldSet(LAMBDA n, acc : acc + ninfo[n].v, 0,
-                        { n \in known : /\ ninfo[n].pool = p /\ ninfo[n].acct = a /\ txs[ninfo[n].t].mined # -1
-                                         /\ (IF dust THEN ninfo[n].v <= Dust ELSE ninfo[n].v > Dust)
-                                         /\ \A k \in links : k[1] = n => txs[k[2]].mined = -1 })
+ChainBal(a, p, dust) == FoldSet(LAMBDA n, acc : acc + ninfo[n].v, 0,
+                        { n \in { x.n : x \in ChainOuts } : /\ ninfo[n].pool = p /\ ninfo[n].acct = a
+                                                            /\ (IF dust THEN ninfo[n].v <= Dust ELSE ninfo[n].v > Dust)
+                                                            /\ ChainSpenders(n) = {} })
+PendingForever(n) == \E k \in links : k[1] = n /\ txs[k[2]].mined = -1 /\ txs[k[2]].exp = Never
 TFresh == /\ IsEvent("fresh")
           /\ scanned = 1..top /\ tip = top
-          /\ { FreshRow(Rec[l].notes[i]) : i \in DOMAIN Rec[l].notes } = { MinedRow(n) : n \in { n \in known : txs[ninfo[n].t].mined # -1 } }
+          /\ { FreshRow(Rec[l].notes[i]) : i \in DOMAIN Rec[l].notes } = { ChainRow(x) : x \in ChainOuts }
           /\ Rec[l].balp => \A a \in 1..2 :
-                               /\ Rec[l].bal[a].S = << MinedBal(a, "S", FALSE), MinedBal(a, "S", TRUE) >>
-                               /\ Rec[l].bal[a].O = << MinedBal(a, "O", FALSE), MinedBal(a, "O", TRUE) >>
-                               /\ Rec[l].bal[a].I = << MinedBal(a, "I", FALSE), MinedBal(a, "I", TRUE) >>
+                               /\ Rec[l].bal[a].S = << ChainBal(a, "S", FALSE), ChainBal(a, "S", TRUE) >>
+                               /\ Rec[l].bal[a].O = << ChainBal(a, "O", FALSE), ChainBal(a, "O", TRUE) >>
+                               /\ Rec[l].bal[a].I = << ChainBal(a, "I", FALSE), ChainBal(a, "I", TRUE) >>
+          \* the wallet under test (its projection was compared with the specification state at the previous event)
+          /\ { n \in known : txs[ninfo[n].t].mined # -1 } = { x.n : x \in ChainOuts }
+          /\ \A x \in ChainOuts :
+                /\ txs[ninfo[x.n].t].mined = x.h
+                /\ PendingForever(x.n) \/ { k[2] : k \in { k \in links : k[1] = x.n /\ txs[k[2]].mined # -1 } } = ChainSpenders(x.n)
           /\ UNCHANGED wvars /\ UNCHANGED cvars /\ UNCHANGED locks /\ UNCHANGED sugg
 
 \* C15: suggest_scan_ranges returns exactly the queue entries of priority Historic or above, highest priority
@@ -288,8 +298,27 @@ TClear == /\ IsEvent("clearlocks") /\ Rec[l].res = "ok"
           /\ UNCHANGED wvars /\ UNCHANGED cvars /\ UNCHANGED sugg
           /\ PostOK(Rec[l].post)
 
+\* create_proposed_transactions on a proposal made earlier (single step): the stored pending transaction spends exactly
+\* the proposal's inputs, pays payments + change + the proposal's fee out of them, expires where asked (default: target +
+\* ExpiryDelta); the locks on the notes it spends may be released (the spend records protect them from now on)
+TCreate == /\ IsEvent("create") /\ UNCHANGED sugg /\ UNCHANGED cvars
+           /\ \/ /\ Rec[l].res = "ok" /\ Len(Rec[l].txs) = 1
+                 /\ LET x == Rec[l].txs[1]
+                        S == { Rec[l].inputs[i][1] : i \in DOMAIN Rec[l].inputs }
+                    IN  /\ Create(x.t, Rec[l].target, x.exp, S, x.outs)
+                        /\ S \subseteq known /\ \A i \in DOMAIN Rec[l].inputs : ninfo[Rec[l].inputs[i][1]].v = Rec[l].inputs[i][2]
+                        /\ x.nf_missing = 0 /\ x.nf_extra = 0
+                        /\ x.exp = (IF Rec[l].expreq = -1 THEN Rec[l].target + ExpiryDelta ELSE Rec[l].expreq)
+                        /\ SumSeq([i \in DOMAIN Rec[l].inputs |-> Rec[l].inputs[i][2]])
+                              = SumSeq([i \in DOMAIN x.outs |-> x.outs[i].v]) + Rec[l].fee
+                        \* the pinned code releases the locks on the notes the transaction spends (the spend records protect
+                        \* them now); keeping them would do no harm, so either is allowed
+                        /\ \E K \in { S \cap DOMAIN locks, {} } : locks' = [n \in DOMAIN locks \ K |-> locks[n]]
+              \/ Rec[l].res = "err" /\ UNCHANGED wvars /\ UNCHANGED locks     \* refusals (stale proposal, missing witness): no effect
+           /\ PostOK(Rec[l].post)
+
 TraceInit == Init /\ l = 1 /\ locks = << >> /\ sugg = << >> /\ grid = 0 /\ gbase = 0 /\ cmAt = << >> /\ covered = {} /\ lostOK = {} /\ mck = EmptyCk /\ mret = EmptyCk
-TraceNext == TReset \/ TBlock \/ TTip \/ TScan \/ TTrunc \/ TFresh \/ TPropose \/ TLock \/ TUnlock \/ TClear \/ TSuggest \/ TSyncDone \/ TRoots
+TraceNext == TReset \/ TBlock \/ TTip \/ TScan \/ TTrunc \/ TFresh \/ TPropose \/ TCreate \/ TLock \/ TUnlock \/ TClear \/ TSuggest \/ TSyncDone \/ TRoots
 TraceSpec == TraceInit /\ [][TraceNext]_tvars
 
 Accepted == LET n == TLCGet("stats").diameter - 1
